@@ -197,13 +197,21 @@ def check_multiword(nwords, lsb_first, lanesyms, T, viol, stats, part=None):
     ce = D.i(e.ce)
     Oo = [D.i(s) for s in e.output]
     Od = [D.i(s) for s in e.disparity]
-    def step(state, syms):
+    cnt = [0, 0]
+    def step(state, syms, cev=1):
         v = D.load(state)
         for i, (dv, kv) in enumerate(syms):
             v[Id[i]], v[Ik[i]] = dv, kv
-        v[ce] = 1
+        v[ce] = cev
         fs.settle()
-        fs.tick()
+        cnt[0] += 1
+        if cnt[0] % 97 == 1:
+            pre = list(v)
+            fs.tick()
+            D.conform(tuple(state), pre, v, ("sys",))
+            cnt[1] += 1
+        else:
+            fs.tick()
         return D.state(), [(fs.v[o], fs.v[dd]) for o, dd in zip(Oo, Od)]
     # entry states: after reset (running disparity -1) and after a prefix group whose serial encoding (reference table,
     # starting at RD- like the reset state) ends at RD+.  Outputs of a group applied at step t are in the output
@@ -226,6 +234,10 @@ def check_multiword(nwords, lsb_first, lanesyms, T, viol, stats, part=None):
             continue
         for rd, st in entries.items():
             s1, _ = step(st, list(syms))
+            # a stalled cycle (ce = 0) showing other symbols on every lane must leave every register of every lane alone
+            sf, _ = step(s1, [(0x17, 0), (0xFC, 1), (0xEB, 0), (0x00, 0)][:nwords] if nwords <= 4 else filler, cev=0)
+            if sf != s1:
+                viol.setdefault("ce.freeze", dict(rule="ce.freeze", msg=f"nwords={nwords}: registers changed with ce=0 after {syms} rd_in={rd}", detail=dict(syms=syms, rd=rd)))
             _, outs = step(s1, filler)
             n += 1
             r = rd
@@ -236,6 +248,7 @@ def check_multiword(nwords, lsb_first, lanesyms, T, viol, stats, part=None):
                                                         detail=dict(syms=syms, rd=rd)))
                 r = r2
     stats["evaluations"] = n
+    stats["conformed"] = cnt[1]
 
 
 class EncModel(QueueModel):
@@ -354,7 +367,7 @@ def run_config(cfg, seed, tier):
     mstats = {}
     mviol = {}
     check_multiword(nwords, lsb, lanes, T, mviol, mstats, part=(cfg[1], cfg[2]))
-    return dict(cfg=name, states=mstats["evaluations"], transitions=2*mstats["evaluations"], conformed=0, exhaustive=True,
+    return dict(cfg=name, states=mstats["evaluations"], transitions=3*mstats["evaluations"], conformed=mstats["conformed"], exhaustive=True,
                 violations=list(mviol.values()), cover=mstats, sample=[dict(lanes=[list(s) for s in lanes[:nwords]])])
 
 
